@@ -318,7 +318,7 @@ def _run_shard(args):
     r = run_tlc(module, cfg=cfg, env=env, workers=1, heap="3g")
     ok = []
     for p in r.prints:
-        if p.startswith('<<"OK"'):
+        if p.startswith('<<"OK"') or p.startswith('<<"ACCEPT"'):
             ok.append(parse_tla(p)[1])
     return r.verdicts, ok, r.distinct, r.generated, r.cmd, r.violated, r.out[-1500:]
 
@@ -354,7 +354,7 @@ def run_tlc_sharded(module: str, rows: List[Dict[str, Any]], tmp: str, shards: i
             x = list(x)
             x[2] = idmap[x[2]]
             verdicts.append(x)
-        ok += [idmap[i] for i in o]
+        ok += sorted({idmap[i] for i in o})
         distinct += d
         generated += g
         cmd = c
